@@ -24,86 +24,148 @@ type node struct {
 	body  []byte // contents octets (for indefinite: without the end-of-contents octets)
 }
 
-// parseNode reads one element from b and returns it with the remaining bytes.
-func parseNode(b []byte, depth int) (*node, []byte, error) {
-	if depth > berMaxDepth || len(b) < 2 {
-		return nil, nil, errBER
+// header is a decoded identifier + length prefix.
+type header struct {
+	class, tag int
+	cons       bool
+	idLen      int    // identifier octets
+	hdrLen     int    // identifier + length octets
+	indef      bool   // indefinite-length form
+	length     uint64 // declared definite length
+}
+
+func parseHeader(b []byte) (h header, err error) {
+	if len(b) < 2 {
+		return h, errBER
 	}
-	n := &node{class: int(b[0] >> 6), cons: b[0]&0x20 != 0, tag: int(b[0] & 0x1f)}
+	h.class, h.cons, h.tag = int(b[0]>>6), b[0]&0x20 != 0, int(b[0]&0x1f)
 	i := 1
-	if n.tag == 0x1f {
-		n.tag = 0
+	if h.tag == 0x1f {
+		h.tag = 0
 		for cnt := 0; ; cnt++ {
 			if i >= len(b) || cnt >= 4 {
-				return nil, nil, errBER
+				return h, errBER
 			}
 			c := b[i]
 			i++
-			n.tag = n.tag<<7 | int(c&0x7f)
+			h.tag = h.tag<<7 | int(c&0x7f)
 			if c&0x80 == 0 {
 				break
 			}
 		}
 	}
-	n.id = b[:i]
+	h.idLen = i
 	if i >= len(b) {
-		return nil, nil, errBER
+		return h, errBER
 	}
 	l := b[i]
 	i++
 	switch {
 	case l < 0x80:
-		if int(l) > len(b)-i {
-			return nil, nil, errBER
-		}
-		n.body = b[i : i+int(l)]
-		n.full = b[:i+int(l)]
-		return n, b[i+int(l):], nil
+		h.length = uint64(l)
 	case l == 0x80:
-		if !n.cons {
-			return nil, nil, errBER
+		if !h.cons {
+			return h, errBER
 		}
-		n.indef = true
-		rest := b[i:]
-		for {
-			if len(rest) < 2 {
-				return nil, nil, errBER
-			}
-			if rest[0] == 0 && rest[1] == 0 {
-				used := len(b) - len(rest)
-				n.body = b[i:used]
-				n.full = b[:used+2]
-				return n, rest[2:], nil
-			}
-			_, r, err := parseNode(rest, depth+1)
-			if err != nil {
-				return nil, nil, err
-			}
-			rest = r
-		}
+		h.indef = true
 	default:
 		k := int(l & 0x7f)
 		if k > 8 || k > len(b)-i {
-			return nil, nil, errBER
+			return h, errBER
 		}
-		var ln uint64
 		for j := 0; j < k; j++ {
-			ln = ln<<8 | uint64(b[i+j])
+			h.length = h.length<<8 | uint64(b[i+j])
 		}
 		i += k
-		if ln > uint64(len(b)-i) {
+	}
+	h.hdrLen = i
+	return h, nil
+}
+
+// parseNode reads one element from b and returns it with the remaining bytes.
+func parseNode(b []byte, depth int) (*node, []byte, error) {
+	if depth > berMaxDepth {
+		return nil, nil, errBER
+	}
+	h, err := parseHeader(b)
+	if err != nil {
+		return nil, nil, err
+	}
+	n := &node{class: h.class, tag: h.tag, cons: h.cons, indef: h.indef, id: b[:h.idLen]}
+	i := h.hdrLen
+	if !h.indef {
+		if h.length > uint64(len(b)-i) {
 			return nil, nil, errBER
 		}
-		n.body = b[i : i+int(ln)]
-		n.full = b[:i+int(ln)]
-		return n, b[i+int(ln):], nil
+		end := i + int(h.length)
+		n.body = b[i:end]
+		n.full = b[:end]
+		return n, b[end:], nil
 	}
+	rest := b[i:]
+	for {
+		if len(rest) < 2 {
+			return nil, nil, errBER
+		}
+		if rest[0] == 0 && rest[1] == 0 {
+			used := len(b) - len(rest)
+			n.body = b[i:used]
+			n.full = b[:used+2]
+			return n, rest[2:], nil
+		}
+		_, r, err := parseNode(rest, depth+1)
+		if err != nil {
+			return nil, nil, err
+		}
+		rest = r
+	}
+}
+
+// kidsExplicit is kids for parents that contain EXPLICIT context-specific
+// wrappers (isExplicit tells which, by member index and tag number). The length
+// of such a wrapper is redundant (its content is exactly one element) and
+// decoders built on Go's encoding/asn1 never look at it, so a wrapper whose
+// declared definite length disagrees with its content is read as "header + one
+// element" here as well instead of making the whole object unreadable.
+func (n *node) kidsExplicit(depth int, isExplicit func(idx, tag int) bool) ([]*node, error) {
+	if n == nil || !n.cons {
+		return nil, errBER
+	}
+	var out []*node
+	rest := n.body
+	for len(rest) > 0 {
+		if h, err := parseHeader(rest); err == nil && h.class == 2 && h.cons && !h.indef && isExplicit(len(out), h.tag) {
+			if inner, r, err := parseNode(rest[h.hdrLen:], depth+2); err == nil {
+				out = append(out, &node{class: 2, tag: h.tag, cons: true, id: rest[:h.idLen],
+					full: rest[:h.hdrLen+len(inner.full)], body: inner.full})
+				rest = r
+				continue
+			}
+		}
+		c, r, err := parseNode(rest, depth+1)
+		if err != nil {
+			return out, err
+		}
+		out = append(out, c)
+		rest = r
+	}
+	return out, nil
 }
 
 // kids parses the contents of a constructed element. On error the elements
 // parsed so far are returned together with the error.
 func (n *node) kids(depth int) ([]*node, error) {
 	if n == nil || !n.cons {
+		return nil, errBER
+	}
+	return n.kidsAny(depth)
+}
+
+// kidsAny parses the contents as a series of elements even if the element is
+// flagged primitive (some decoders do not look at the constructed bit of
+// implicitly tagged fields).
+func (n *node) kidsAny(depth int) ([]*node, error) {
+	if n == nil {
 		return nil, errBER
 	}
 	var out []*node
@@ -215,6 +277,9 @@ func (n *node) bitString() ([]byte, int, bool) {
 	}
 	if len(n.body) == 1 && n.body[0] != 0 {
 		return nil, 0, false
+	}
+	if u := n.body[0]; u > 0 && n.body[len(n.body)-1]&(1<<u-1) != 0 {
+		return nil, 0, false // padding bits must be zero
 	}
 	return n.body[1:], int(n.body[0]), true
 }
